@@ -672,7 +672,8 @@ fn is_abort(p: &Box<dyn Any + Send>) -> bool {
   p.is::<Abort>()
 }
 
-const STACK: usize = 8 << 20;
+// virtual size only; deep (runaway) recursions must hit the step budget before the stack ends
+const STACK: usize = 128 << 20;
 
 // ---------------------------------------------------------------------------------------
 // OS thread pool: executions create and finish threads at a high rate; reusing parked OS
